@@ -1409,6 +1409,27 @@ example : (postInitGen CBV.Gen.c03PostInit (some 0) none none none none).map (fu
       (some 5) (some (1 / 10)) none none none).map (·.c2c) = some (some 1) ∧
     (postInitGen CBV.Gen.c03PostInit (some 5) (some (1 / 10)) none none none).map (·.c2c) = some none := by decide +kernel
 
+/-- `Chop.copy_preserving` interpreted from the source as it is now (its seven statements are matched one by one with
+    `ast`: arguments from `dataclasses.asdict(self)`, `args["count"] = self.results["count"]`, the list of keys set to
+    `None`, the preserved quantity from `results`, `Chop(**args)` — i.e. the interpreted `__post_init__` —, the conditional
+    `invert()`): for every object whose last results hold a count `>= 1` (what `calculate` returns) and both flags it is
+    the model's `copyPreserving`.  In particular the copy depends on the chop's own parameters not at all: every one of
+    the four sizes / ratios is cleared before the preserved one is set. -/
+theorem T_C03_translated_copy_preserving (ob : Obj) (inverted : Bool)
+    (hn : ∀ res n, ob.last = some res → res.count = some n → 1 ≤ n) :
+    copyGen CBV.Gen.c03CopyPreserving CBV.Gen.c03PostInit ob inverted = copyPreserving ob inverted :=
+  copyGen_eq ob inverted hn
+
+/-- a chop (start 1/10, ratio 2) with results (3 cells, …): the reversed copy is (3, ratio 1/2); an interpretation whose
+    cleared list forgets `start_size` would carry the chop's own start size into the copy -/
+example :
+    let ob : Obj := { params := { start := some (1 / 10), c2c := some 2 },
+                      last := some { count := some 3, start := some (1 / 7), end_ := some (4 / 7), c2c := some 2, total := some 4 } }
+    (copyGen CBV.Gen.c03CopyPreserving CBV.Gen.c03PostInit ob true).toOption = some { count := some 3, c2c := some (1 / 2) } ∧
+    (copyPreserving ob true).toOption = some { count := some 3, c2c := some (1 / 2) } ∧
+    (copyGen (("count", "count"), ["total_expansion", "c2c_expansion", "end_size"], true) CBV.Gen.c03PostInit ob false).toOption =
+      some { count := some 3, start := some (1 / 10), c2c := some 2 } := by decide +kernel
+
 /-- `Chop.invert`, statement by statement as the source has it now (tuple swap of the sizes, `1 / c2c_expansion` and
     `1 / total_expansion` under their `is not None` tests, the `preserve` field moved to the other end — in this order):
     run on any parameter record it yields the model's `invert` and `swapPreserve`, and when a reciprocal raises
